@@ -1,8 +1,10 @@
 """C01 - the in-memory store is a TTL map for every command history.
 
 proof: lean/CashewsVerif/Props/C01.lean (Mem refines TtlMap, corollaries).
-tie:   generated histories run on the real `Memory` / `Cache('mem://')` under the virtual clock and on the
+tie:   generated histories run on the real `Memory` / `Cache` facade under the virtual clock and on the
        model driver; compared line by line:  impl == model (correspondence)  and  impl == spec (the property).
+       The real purge task runs next to the harness task; what it does to the store is observed on the store
+       (not on how `_remove_expired` is written) and spliced into the history as `purge` lines - see memhist.py.
 """
 from __future__ import annotations
 
@@ -21,7 +23,13 @@ CFGS = ["raw", "facade", "facade_secret", "raw_purge", "facade_purge", "facade_p
 TRUSTED = [
     "Lean 4.33.0 kernel; axioms of every theorem audited to be within {propext, Classical.choice, Quot.sound}",
     "hand-written model lean/CashewsVerif/Model/Mem.lean of cashews/backends/memory.py, tied to the code by this run's history correspondence",
-    "harness: virtual clock (harness/vtime.py), canonicalisation of results, purge-sweep splicing (harness/memhist.py)",
+    "harness: virtual clock (harness/vtime.py), canonicalisation of results, observation of the purge task on the store itself "
+    "(harness/memhist.py: `ObservedMemory.store` is an OrderedDict subclass reporting every mutation and the task that made it; "
+    "background mutations of one instant not separated by a command are spliced in as one `purge` line)",
+    "the purge sweep is atomic with respect to commands (no suspension point inside Memory.get; asyncio does not preempt): assumed by "
+    "the model's single `purge` operation, made explicit in Model/Sweep.lean / theorem sweeps_invisible; not proved - exercised by "
+    "commands landing at the very instant of a purge tick, before and after the purge task's step (interesting_states_cases: "
+    "command_at_the_instant_of_a_sweep_after_it, sweep_at_the_instant_of_a_command_after_it; sweep_split_by_commands stays absent)",
     "serializer configurations are run but not modelled: C09 covers decode(encode v) = v",
     "capacity eviction excluded (size=1000 >> keys); see C11",
 ]
@@ -110,7 +118,10 @@ def run(chk: Check) -> int:
     for i in range(n):
         cfg = CFGS[i % len(CFGS)]
         maxlen = 40 if i % 3 else 12
-        cases.append((f"gen:{i}", cfg, memhist.gen_history(chk.rng, NKEYS, maxlen)))
+        # purge task on: every other history is phase-locked to the purge ticks (see memhist.PHASE_ADVS)
+        locked = bool(memhist.CONFIGS[cfg]["purge"]) and (i // len(CFGS)) % 2 == 1
+        cases.append((f"gen:{i}", cfg, memhist.gen_history(
+            chk.rng, NKEYS, maxlen, advs=memhist.PHASE_ADVS if locked else None, ttls=memhist.PHASE_TTLS if locked else None)))
     # run the implementation on every case, then the model driver ONCE on all of them (one `case` line resets it)
     runs = []
     for origin, cfg, ops in cases:
@@ -147,7 +158,9 @@ def run(chk: Check) -> int:
         "evaluations": evaluations,
         "distinct_nontrivial": len(distinct),
         "rule": "histories of 1..40 commands over 4 keys generated from VERIF_SEED, round-robin over configurations "
-                + ",".join(CFGS) + "; a case is non-trivial iff at least one command touched an expired-but-unpurged entry, "
+                + ",".join(CFGS) + "; with the purge task on every other history is phase-locked to the purge ticks (all time "
+                "advances are multiples of the purge interval or idle yields, TTLs at most two intervals), so that commands land at the "
+                "instant of a tick on either side of the purge task's step; a case is non-trivial iff at least one command touched an expired-but-unpurged entry, "
                 "answered exactly at a deadline, or a real purge sweep was spliced in; distinct = distinct (config, op list)",
         "samples": samples,
         "corpus_cases": ncorpus,
